@@ -568,7 +568,13 @@ def file(node, filename, mode="a", skip_black=False):
     # Write atomically: a failure part-way must never leave `filename` truncated or half-written
     if mode.startswith("a") and path.isfile(filename):
         with open(filename, "rt") as f:
-            src = f.read() + src
+            existing = f.read()
+        # never glue the appended definition onto an unterminated last line
+        src = (
+            existing
+            if not existing or existing.endswith("\n")
+            else "{}\n".format(existing)
+        ) + src
     tmp_filename = "{}.doctrans-tmp".format(filename)
     try:
         with open(tmp_filename, "wt") as f:
